@@ -146,9 +146,14 @@ def rule_forward(ctx):
                             guarded = True
                 okw = okw and guarded
             rets = {}
-            for r in f.returns():
+            own_rets = [r for r in f.returns() if f.n(r)['ch']]
+            if any(strip_cast(f.term(f.n(r)['ch'][0], inline=True))[0] in ('phi', 'cond') for r in own_rets):
+                # the value comes from an inlined helper with several returns: each of them is a return of this function
+                own_rets = [r for r in own_rets if strip_cast(f.term(f.n(r)['ch'][0], inline=True))[0] not in ('phi', 'cond')] + \
+                           [i for i in f.all_ids() if f.n(i)['c'] == 'InlinedReturn' and f.n(i)['ch']]
+            for r in own_rets:
                 v = strip_cast(f.term(f.n(r)['ch'][0], inline=True))
-                pos = f.block_of(r)
+                pos = f.block_of(r) or f.block_of(f.n(r)['ch'][0])
                 under = any(any(not is_end for (x, is_end) in endguard.implications(f, g.cond(b), lab)) for (b, lab) in g.transitive_control_deps(pos[0]) if g.cond(b))
                 rets[v] = under
             okr = rets.get(('lit', 1)) is True and rets.get(('lit', 0)) is False
